@@ -1441,6 +1441,24 @@ def isinstance_model(I, st, v, cls):
         raise Unsupported("isinstance against an unmodelled class")
     if isinstance(cls, Unknown):
         raise Unsupported("isinstance against unmodelled " + cls.desc)
+    if isinstance(cls, BuiltinClass) and cls.name == "collections.abc.Iterable":
+        # Iterable.__subclasshook__: the type (or a base) defines __iter__
+        if isinstance(v, Ref):
+            e = st.get(v)
+            if e.kind == "obj":
+                if not isinstance(e.cls, ClassVal) or "__tuple__" in e.attrs:
+                    raise Unsupported("isinstance(obj, Iterable) for this object")
+                return I.class_lookup(e.cls, "__iter__")[0] is not None
+            return True  # list, deque, dict, set, ndarray, symbolic-length list
+        if isinstance(v, (str, tuple, frozenset)):
+            return True
+        from .symex import FrozenList as _FL, FrozenDict as _FD, FrozenNd as _FN
+
+        if isinstance(v, (_FL, _FD, _FN)):
+            return True
+        if v is None or isinstance(v, (bool, int, Fraction)) or (is_z3(v) and (z3.is_int(v) or z3.is_real(v) or z3.is_bool(v))):
+            return False
+        raise Unsupported("isinstance(%r, Iterable)" % (v,))
     if isinstance(v, Ref):
         e = st.get(v)
         if e.kind == "obj":
@@ -1719,7 +1737,13 @@ def make_ext_modules(I):
 
     E["functools"] = {"partial": bi("functools.partial", lambda I, st, a, k: iter([(st, Partial(a[0], a[1:], k))])),
                       "lru_cache": bi("functools.lru_cache", lambda I, st, a, k: iter([(st, a[0] if a else Opaque("lru_cache"))]))}
-    E["operator"] = {}
+    def _op2(opname):
+        # operator.mul / truediv / add / sub (a, b) = the binary operator on the same operands
+        return lambda I, st, a, k: M.binop(I, st, opname, a[0], a[1])
+
+    E["operator"] = {"mul": bi("operator.mul", _op2("Mult")), "truediv": bi("operator.truediv", _op2("Div")),
+                     "add": bi("operator.add", _op2("Add")), "sub": bi("operator.sub", _op2("Sub"))}
+    E["collections.abc"] = {"Iterable": BuiltinClass("collections.abc.Iterable")}
     E["warnings"] = {"warn": bi("warnings.warn", lambda I, st, a, k: iter([(st, None)]))}
 
     from . import npmodel, bytesmodel
